@@ -14,6 +14,8 @@ use crate::util::u64_of;
 
 pub struct World {
     pub pool: Vec<validator::SecretKey>,
+    /// The genesis hash that case descriptions call genesis 0 (default: a synthetic one).
+    pub real_genesis: Option<validator::GenesisHash>,
 }
 
 fn hex32(tag: &str, id: i64) -> String {
@@ -28,8 +30,21 @@ pub fn genesis_hash(id: i64) -> validator::GenesisHash {
 }
 
 /// Payload with identifier `id`; its hash is what models call the payload hash `id`.
+/// Payloads with id >= 500 are big (300 bytes), the others about 10 bytes.
 pub fn payload(id: i64) -> validator::Payload {
-    validator::Payload(format!("payload-{id}").into_bytes())
+    let mut b = format!("payload-{id};").into_bytes();
+    if id >= 500 {
+        b.extend(std::iter::repeat(0u8).take(300));
+    }
+    validator::Payload(b)
+}
+
+/// Identifier of a payload built by `payload`.
+pub fn payload_id(p: &validator::Payload) -> Option<i64> {
+    let s = std::str::from_utf8(&p.0).ok().or_else(|| std::str::from_utf8(&p.0[..p.0.len().min(30)]).ok())?;
+    let s = s.strip_prefix("payload-")?;
+    let end = s.find(';')?;
+    s[..end].parse().ok()
 }
 
 pub fn payload_hash(id: i64) -> validator::PayloadHash {
@@ -40,6 +55,7 @@ impl World {
     pub fn new(n: usize) -> Self {
         Self {
             pool: crate::keys::validator_pool(n),
+            real_genesis: None,
         }
     }
 
@@ -62,9 +78,20 @@ impl World {
         validator::Schedule::new(vals, validator::LeaderSelection::default()).expect("schedule")
     }
 
+    pub fn genesis(&self, id: i64) -> validator::GenesisHash {
+        match (&self.real_genesis, id) {
+            (Some(g), 0) => *g,
+            _ => genesis_hash(id),
+        }
+    }
+
+    pub fn genesis_id(&self, g: &validator::GenesisHash) -> i64 {
+        (0..64).find(|i| &self.genesis(*i) == g).unwrap_or(-1)
+    }
+
     pub fn view(&self, v: &Value) -> View {
         View {
-            genesis: genesis_hash(v["g"].as_i64().unwrap()),
+            genesis: self.genesis(v["g"].as_i64().unwrap()),
             epoch: validator::EpochNumber(u64_of(&v["e"])),
             number: validator::ViewNumber(u64_of(&v["n"])),
         }
